@@ -83,6 +83,61 @@ XMLSize_t HexBinaryDatatypeValidator::getLength(const XMLCh* const content
     return (XMLSize_t)HexBin::getDataLength(content);
 }
 
+static inline XMLCh upperHexDigit(const XMLCh ch)
+{
+    return (ch >= chLatin_a && ch <= chLatin_f) ? (XMLCh)(ch - chLatin_a + chLatin_A) : ch;
+}
+
+//
+// the enumeration is matched by value: keep its entries, and bring
+// the content to be looked up, in one form (upper case digits)
+//
+void HexBinaryDatatypeValidator::normalizeEnumeration(MemoryManager* const manager)
+{
+    XMLSize_t enumLength = getEnumeration()->size();
+    for ( XMLSize_t i=0; i < enumLength; i++)
+    {
+        normalizeContent(getEnumeration()->elementAt(i), manager);
+    }
+}
+
+void HexBinaryDatatypeValidator::normalizeContent(XMLCh* const content
+                                                , MemoryManager* const) const
+{
+    if (!content)
+        return;
+
+    for (XMLCh* ptr = content; *ptr; ptr++)
+        *ptr = upperHexDigit(*ptr);
+}
+
+// ---------------------------------------------------------------------------
+//  Compare methods
+// ---------------------------------------------------------------------------
+
+int HexBinaryDatatypeValidator::compare(const XMLCh* const lValue
+                                      , const XMLCh* const rValue
+                                      , MemoryManager* const)
+{
+    if (!lValue || !rValue)
+        return XMLString::compareString(lValue, rValue);
+
+    // "0a" and "0A" denote the same octet
+    const XMLCh* lPtr = lValue;
+    const XMLCh* rPtr = rValue;
+    for (;; lPtr++, rPtr++)
+    {
+        const XMLCh lCh = upperHexDigit(*lPtr);
+        const XMLCh rCh = upperHexDigit(*rPtr);
+
+        if (lCh != rCh)
+            return int(lCh) - int(rCh);
+
+        if (!lCh)
+            return 0;
+    }
+}
+
 /***
  * Support for Serialization/De-serialization
  ***/
